@@ -174,6 +174,10 @@ def h_step(P, kinds, shape, props, L=2, hibernation=False, generations=2, mech="
     # =========================== C09 (centroids are current)
     if "C09" in props:
         for lvl, d in tree.all_demes:
+            if not d.current_population:
+                # a local search that ended without a single iterate leaves an empty generation: no centroid
+                P.oblige("C09.centroid_is_mean_of_current_population", d.centroid is None)
+                continue
             want = np.mean([ind.genome for ind in d.current_population], axis=0)
             P.oblige("C09.centroid_is_mean_of_current_population", bool(np.array_equal(d.centroid, want)))
 
